@@ -1,6 +1,7 @@
 /-
   BOUNDED CHECK (a test by kernel evaluation): `A1_contained`, `A2_hashes` at q = 3 on every
-  subset of two universes, and closure of the subsets under the set operations.
+  subset of two universes, and closure of the subsets under the
+  set operations.
 -/
 import PyProb.Lemmas.QFBoundedDefs
 
@@ -11,5 +12,6 @@ theorem checkContained_UB : checkContained UB = true := by decide +kernel
 theorem checkHashes_UA : checkHashes UA = true := by decide +kernel
 theorem checkHashes_UB : checkHashes UB = true := by decide +kernel
 theorem checkClosed_UA : checkClosed UA = true := by decide +kernel
+theorem checkClosed_UB : checkClosed UB = true := by decide +kernel
 
 end PyProb.QFBounded
